@@ -19,6 +19,16 @@ Section Compress.
     let z := deflate level d in
     write_var_u32 (as_u32 (nlen d)) ++ write_var_u32 (as_u32 (nlen z)) ++ z.
 
+  (* binary_output.rs write_compressed since the repair of F18: both lengths are converted with try_into() before
+     anything is written, so a block or a deflate stream of 2^32 bytes or more is LengthTooLarge and the frame
+     always records the true lengths (the pinned tree wrote `len as u32`, the function above) *)
+  Definition write_compressed_checked (level : N) (d : bytes) : outcome bytes :=
+    if nlen d <? 2 ^ 32 then
+      let z := deflate level d in
+      if nlen z <? 2 ^ 32 then Ok (write_var_u32 (nlen d) ++ write_var_u32 (nlen z) ++ z)
+      else Err ELengthTooLarge
+    else Err ELengthTooLarge.
+
   (* the result, the new source state, and the capacity reserved before decompressing *)
   Definition read_compressed {S} (R : reader S) (s : S) : outcome (bytes * S * N) :=
     '(ulen, s) <- read_var_u32 R s ;;
